@@ -464,12 +464,14 @@ def dec_epath(data, off, padded=False, lenient=False):
     return segs, end
 
 
-def dec_request(msg):
-    """Lenient decode of one CIP request -> dict(service, path, ...) or raises DecodeError."""
+def dec_request(msg, lenient=True):
+    """Decode of one CIP request -> dict(service, path, ...) or raises DecodeError.  lenient: tolerate
+    inconsistent size/length/pad fields as long as service, path, type and values can be read off in
+    order; strict (lenient=False): every length must be consistent and nothing may trail."""
     try:
         need(len(msg) >= 2, 'request too short')
         svc = msg[0]
-        path, off = dec_epath(msg, 1, lenient=True)
+        path, off = dec_epath(msg, 1, lenient=lenient)
         out = dict(service=svc, path=path)
         rest = msg[off:]
         if svc == READ_TAG:
@@ -484,7 +486,9 @@ def dec_request(msg):
             need(code in TYPES, 'type')
             out['type'] = TYPES[code][0]
             out['elements'] = n
-            out['values'] = dec_elems(out['type'], rest[4:], strict=False)
+            out['values'] = dec_elems(out['type'], rest[4:], strict=not lenient)
+            if not lenient:
+                need(len(out['values']) == n, 'write tag element count')
         elif svc == WRITE_FRAG:
             need(len(rest) >= 8, 'write frag header')
             code, n, o = struct.unpack_from('<HHI', rest, 0)
@@ -492,7 +496,7 @@ def dec_request(msg):
             out['type'] = TYPES[code][0]
             out['elements'] = n
             out['offset'] = o
-            out['values'] = dec_elems(out['type'], rest[8:], strict=False)
+            out['values'] = dec_elems(out['type'], rest[8:], strict=not lenient)
         elif svc == SA_SINGLE:
             out['data'] = bytes(rest)
         elif svc == MULTIPLE:
@@ -505,19 +509,25 @@ def dec_request(msg):
                 e = offs[i + 1] if i + 1 < n else len(rest)
                 try:
                     need(2 + 2 * n <= o <= e <= len(rest), 'multiple offsets inconsistent')
-                    members.append(dec_request(rest[o:e]))
+                    members.append(dec_request(rest[o:e], lenient))
                 except DecodeError:
+                    if not lenient:
+                        raise
                     members.append(None)        # this member cannot be read; the others still can
             out['members'] = members
         elif svc == UNCONNECTED_SEND:
             need(len(rest) >= 4, 'unconnected send header')
             prio, ticks, ln = struct.unpack_from('<BBH', rest, 0)
             need(len(rest) >= 4 + ln, 'unconnected send message truncated')
-            out['request'] = dec_request(rest[4:4 + ln])
-            try:
-                out['route'], _ = dec_epath(rest, 4 + ln + (ln % 2), padded=True, lenient=True)
-            except (DecodeError, IndexError, struct.error):
-                out['route'] = None
+            out['request'] = dec_request(rest[4:4 + ln], lenient)
+            if lenient:
+                try:
+                    out['route'], _ = dec_epath(rest, 4 + ln + (ln % 2), padded=True, lenient=True)
+                except (DecodeError, IndexError, struct.error):
+                    out['route'] = None
+            else:
+                out['route'], end = dec_epath(rest, 4 + ln + (ln % 2), padded=True)
+                need(end == len(rest), 'trailing bytes after the route path')
         else:
             out['rest'] = bytes(rest)
         return out
